@@ -520,7 +520,7 @@ func ruleC18R3(c *Ctx) {
 		}
 		// the deadline is the caller's parameter and the I/O is only reached when setting it succeeded
 		okP := false
-		if p, ok := strip(sets[0].Common().Args[0]).(*ssa.Parameter); ok && p.Name() == "deadline" {
+		if p, ok := strip(sets[0].Common().Args[0]).(*ssa.Parameter); ok && typeName(p.Type()) == "time.Time" {
 			okP = true
 		}
 		via := false
